@@ -718,6 +718,14 @@ def _parse_source_for_lambda(
     # enclosing function for the lambda - as funny things can be done with indents
     # and function arguments, and the tokenizer does not take kindly to surprising
     # "un-indents".
+    if hasattr(ast_source, "__wrapped__"):
+        # The source we would find is that of the wrapped function, which is not what the
+        # callable we were handed computes.
+        raise ValueError(
+            f"Unable to recover source for {ast_source} - it is wrapped by a decorator. Pass the "
+            "undecorated function or a lambda."
+        )
+
     func_name = None
     start_token = None
     source, lambda_line = _get_sourcelines(ast_source)
